@@ -547,6 +547,8 @@ def project_sampler(sc, run):
             while len(lens) < new["chains"]:
                 lens.append(0)
             e["lens"] = lens
+            # which chains the snapshot contains at all
+            e["has"] = [(i < len(tr) and tr[i] is not None) for i in range(new["chains"])]
             e["prefixok"] = all(is_prefix(t or [], full_rec[i]) for i, t in enumerate(tr))
         if k == "ch_result":
             e.pop("msg", None)
